@@ -1,0 +1,77 @@
+// Copyright 2026, Chef.  All rights reserved.
+// https://github.com/q191201771/lal
+//
+// Use of this source code is governed by a MIT-style license
+// that can be found in the License file.
+//
+// Author: Chef (191201771@qq.com)
+
+package rtsp
+
+import (
+	"fmt"
+	"io"
+	"strconv"
+
+	"github.com/q191201771/naza/pkg/nazahttp"
+)
+
+// maxRtspMessageBodySize rtsp信令的body（sdp等）允许的最大长度
+const maxRtspMessageBodySize = 1 * 1024 * 1024
+
+// readHttpMessage
+//
+// 功能同 nazahttp.ReadHttpMessage ，区别是对 Content-Length 做有效性检查：
+// 对端可以填入负数或者很大的值，不能直接按这个值申请内存
+func readHttpMessage(r nazahttp.HttpReader) (ctx nazahttp.HttpMsgCtx, err error) {
+	var firstLine string
+	firstLine, ctx.Headers, err = nazahttp.ReadHttpHeader(r)
+	if err != nil {
+		return ctx, err
+	}
+	ctx.ReqMethodOrRespVersion, ctx.ReqUriOrRespStatusCode, ctx.ReqVersionOrRespReason, err = nazahttp.ParseHttpRequestLine(firstLine)
+	if err != nil {
+		return ctx, err
+	}
+
+	contentLength := ctx.Headers.Get(nazahttp.HeaderFieldContentLength)
+	if len(contentLength) == 0 {
+		return ctx, nil
+	}
+	cl, err := strconv.Atoi(contentLength)
+	if err != nil {
+		return ctx, err
+	}
+	if cl < 0 || cl > maxRtspMessageBodySize {
+		return ctx, fmt.Errorf("rtsp: invalid content length. value=%s", contentLength)
+	}
+	ctx.Body = make([]byte, cl)
+	_, err = io.ReadFull(r, ctx.Body)
+	return ctx, err
+}
+
+func readHttpRequestMessage(r nazahttp.HttpReader) (ctx nazahttp.HttpReqMsgCtx, err error) {
+	msgCtx, err := readHttpMessage(r)
+	if err != nil {
+		return
+	}
+	ctx.Method = msgCtx.ReqMethodOrRespVersion
+	ctx.Uri = msgCtx.ReqUriOrRespStatusCode
+	ctx.Version = msgCtx.ReqVersionOrRespReason
+	ctx.Headers = msgCtx.Headers
+	ctx.Body = msgCtx.Body
+	return
+}
+
+func readHttpResponseMessage(r nazahttp.HttpReader) (ctx nazahttp.HttpRespMsgCtx, err error) {
+	msgCtx, err := readHttpMessage(r)
+	if err != nil {
+		return
+	}
+	ctx.Version = msgCtx.ReqMethodOrRespVersion
+	ctx.StatusCode = msgCtx.ReqUriOrRespStatusCode
+	ctx.Reason = msgCtx.ReqVersionOrRespReason
+	ctx.Headers = msgCtx.Headers
+	ctx.Body = msgCtx.Body
+	return
+}
